@@ -53,7 +53,7 @@ QsOf(kind, q) == LET n == CASE kind = 0 -> 0 [] kind = 1 -> 1 [] kind \in {2, 3}
 \* three distinct pool indices derived from a salt
 QPick(salt) == << 1 + (salt % NQ), 1 + ((salt + 7) % NQ), 1 + ((salt + 13) % NQ) >>
 
-Fam == [nstate : Nat, nstream : {2, 3}, winset : 1..4, stage : 0..2, gv : BOOLEAN, shape : 0..5,
+Fam == [nstate : Nat, nstream : {2, 3}, winset : 1..5, stage : 0..2, gv : BOOLEAN, shape : 0..5,
         quoted : BOOLEAN, salt : Nat]
 
 \* window sets (coefficients in dyadics)
@@ -62,8 +62,10 @@ WDelta  == << <<-1, 1>>, <<0, 0>>, <<1, 1>> >>
 WAccel  == << <<1, 0>>, <<-2, 0>>, <<1, 0>> >>
 WDelta5 == << <<-1, 2>>, <<-1, 1>>, <<0, 0>>, <<1, 1>>, <<1, 2>> >>      \* width 5
 WAccel5 == << <<1, 2>>, <<0, 0>>, <<-1, 1>>, <<0, 0>>, <<1, 2>> >>
+WStatic3 == << <<0, 0>>, <<1, 0>>, <<0, 0>> >>                            \* the same static window, declared with zero-weight neighbours
 WinSet(k) == CASE k = 1 -> << WStatic >> [] k = 2 -> << WStatic, WDelta >> [] k = 3 -> << WStatic, WDelta, WAccel >>
                [] k = 4 -> << WStatic, WDelta5, WAccel5 >>
+               [] k = 5 -> << WStatic3, WDelta >>
 
 \* ---- PDF words (all dyadic).  h mixes the indices into a small number.
 Mix(a, b, c, d) == (a * 7 + b * 13 + c * 5 + d * 3)
@@ -117,7 +119,7 @@ Stream(f, name, pre, vlen, wins, msd, opts, gv, sidx) ==
    model |-> StreamModel(f, name, vlen, Len(wins), msd, sidx), usegv |-> gv,
    gv |-> IF gv THEN GvModel(f, vlen, sidx) ELSE NoModel]
 Doc(f) ==
-  [rate |-> 16000, fperiod |-> 4, nstate |-> f.nstate, gvoff |-> GvOffPats, quoted |-> f.quoted,
+  [rate |-> 16000, fperiod |-> 4, nstate |-> f.nstate, gvoff |-> GvOffPats, quoted |-> f.quoted, revhdr |-> (f.shape % 2 = 1),
    dur |-> DurModel(f),
    streams |-> << Stream(f, "MCP", "mcp_", McpVlen(f), WinSet(f.winset), FALSE, McpOpts(f), f.gv, 0),
                   Stream(f, "LF0", "lf0_", 1, WinSet(f.winset), TRUE, <<>>, f.gv /\ f.salt % 2 = 0, 1) >>
